@@ -807,7 +807,31 @@ pub fn strategy(which: Which, max_rules: usize, extra_scheds: usize) -> impl Str
                 }
             }
         }
-        let goal = if which == Which::C03 && goal.is_none() && graph.name_seed % 3 == 0 { Some(graph.name_seed.wrapping_mul(31)) } else { goal };
+        // a removed directory only matters when targets live in directories
+        if prefix.iter().any(|o| matches!(o, Op::RemoveDir { .. } | Op::MakeDir { .. })) && (which == Which::C06 || graph.name_seed % 2 == 0)
+        {
+            graph.dirs = true;
+        }
+        let mut goal = if which == Which::C03 && goal.is_none() && graph.name_seed % 3 == 0 { Some(graph.name_seed.wrapping_mul(31)) } else { goal };
+        if which == Which::C03 && graph.name_seed % 8 == 1
+        {
+            // directed shape (the generated-header pattern): S <- leaf, Q <- leaf, C <- {S}, P <- {C, Q}, G <- {P, S}, built with
+            // goal G: the DFS meets S first as an unvisited sibling of an ancestor and needs it again further down
+            let aim = |j: usize, len: usize| -> u16 { (((j * 65536) + len - 1) / len).min(65535) as u16 };
+            graph.n_leaves = 2;
+            graph.two_files = false;
+            let proto = graph.rules[0].clone();
+            let mk = |srcs: Vec<u16>| { let mut r = proto.clone(); r.n_targets = 1; r.kinds = vec![0, 0, 0]; r.failon = None; r.empty_cmd = false; r.multi_line = false; r.srcs = srcs; r };
+            // candidates of rule i: [l0, l1, t(S), t(Q), t(C), t(P)][..2 + i]
+            graph.rules = vec![
+                mk(vec![aim(0, 2)]),                  // S <- l0
+                mk(vec![aim(1, 3)]),                  // Q <- l1
+                mk(vec![aim(2, 4)]),                  // C <- S
+                mk(vec![aim(4, 5), aim(3, 5)]),       // P <- C, Q
+                mk(vec![aim(5, 6), aim(2, 6)]),       // G <- P, S
+            ];
+            goal = Some(aim(4, 5));                  // G's target among the five targets
+        }
         let coarse = which == Which::C06 && graph.render_seed % 3 == 1;
         SchedCase { graph, prefix, fail, missing, goal, clean, scheds, coarse }
     })
